@@ -21,6 +21,7 @@ use ironplc_dsl::{
     common::*,
     core::Located,
     diagnostic::{Diagnostic, Label},
+    textual::CaseSelectionKind,
     visitor::Visitor,
 };
 use ironplc_problems::Problem;
@@ -87,6 +88,18 @@ impl Visitor<Diagnostic> for RuleDeclSubrangeLimits {
         // are inclusive, so a dimension having a single element (0..0) is valid
         // and only reversed bounds are an error.
         for range in node.ranges.iter() {
+            if is_less(&range.end, &range.start) {
+                self.report(range);
+            }
+        }
+        Ok(())
+    }
+
+    fn visit_case_selection_kind(&mut self, node: &CaseSelectionKind) -> Result<(), Diagnostic> {
+        // The range of a case selector is not a subrange declaration. Its bounds
+        // are inclusive, so a range selecting a single value (3..3) is valid and
+        // only reversed bounds are an error.
+        if let CaseSelectionKind::Subrange(range) = node {
             if is_less(&range.end, &range.start) {
                 self.report(range);
             }
